@@ -1,0 +1,32 @@
+//go:build verif
+
+// Contracts for govc (contract-based deductive verification); comments only.
+package common_info
+
+// Abstract verdict of a registered comparator (plugin function value f) on (l, r): <0 l first,
+// >0 r first, 0 undecided. Assumed: a comparator is a deterministic, side-effect free function of its
+// two arguments while the compared objects are not modified (the concrete comparators - priority,
+// elastic, ... - are characterised by their own contracts).
+//@ declare cmpVerdict(f ref, l ref, r ref) int
+
+//@ func type:CompareFn
+//@   pure
+//@   ensures result == cmpVerdict(fn, arg0, arg1)
+//@   note assumed: registered comparators are pure and deterministic
+//@ end
+
+// (added by helper "alloc", with main's permission) Error() only formats a message; it is called by
+// actions/common.handleFailedTaskAllocation on the failure path of the gang protocol, right before Rollback.
+//@ func (*TasksFitErrors).Error
+//@   trusted
+//@   note message formatting (a closure building a reason histogram + sort.Strings + fmt): closure call outside the subset; reads f only (a nil receiver is the caller's no-panic matter)
+//@   pure
+//@ end
+
+// (added by helper "alloc") merge of two per-node error maps: executed in the caller (no assumption introduced);
+// callers: podgroup_info.(*PodGroupInfo).AddTaskFitErrors <- framework.(*Session).FittingNode, common.allocateTask.
+//@ func (*TasksFitErrors).AddNodeErrors
+//@   inline
+//@   loop 1
+//@     invariant true
+//@ end
